@@ -17,7 +17,7 @@ def one(p):
             return p, ["PATCH DOES NOT APPLY"]
         alarms = []
         for prop in props:
-            r = subprocess.run([os.path.join(HERE, "bin", "otterlint"), "-property", prop, "-repo", s, "-verif", HERE, "-no-evidence"], capture_output=True, text=True, env=ENV)
+            r = subprocess.run([os.environ.get("OTTERLINT", os.path.join(HERE, "bin", "otterlint")), "-property", prop, "-repo", s, "-verif", HERE, "-no-evidence"], capture_output=True, text=True, env=ENV)
             if r.returncode == 2:
                 alarms.append("%s: CHECKER BROKEN %s" % (prop, r.stderr[-300:]))
             for line in r.stdout.split("\n"):
@@ -29,7 +29,7 @@ def one(p):
 patches = []
 for d in sys.argv[1:] or [os.path.join(HERE, "neutral")]:
     patches += sorted(glob.glob(os.path.join(d, "*.diff")))
-with ThreadPoolExecutor(max_workers=4) as ex:
+with ThreadPoolExecutor(max_workers=8) as ex:
     for p, alarms in ex.map(one, patches):
         if alarms:
             print("%s: %d FALSE ALARM line(s)" % (p, len(alarms)))
